@@ -284,6 +284,8 @@ fn random_noise_or_blank(rng: &mut Rng) -> Item {
 pub const OBF_CLASSES: &[&str] = &[
     "a", "b", "a.a", "a.b", "a$a", "ab", "a.a$b", "a.", "B", "é", "aé", "a.a.a", "a.a.b", "a.b.c",
     "b.a", "A", "a$b", "a$a$a", "c", "a.a.a.b.c$a", "aa", "a-b", "a1", "z.y.x",
+    // U+1D49C (supplementary plane) vs U+FF21 (high BMP): UTF-8 byte order and UTF-16 code-unit order disagree
+    "a\u{1D49C}", "a\u{FF21}",
 ];
 
 pub fn long_name(seed: usize, len: usize) -> String {
@@ -313,7 +315,7 @@ pub const ORIG_CLASSES: &[&str] = &[
     "p.$$Q$R",
 ];
 
-pub const OBF_METHODS: &[&str] = &["a", "b", "aa", "<init>", "c", "<clinit>", "a$b"];
+pub const OBF_METHODS: &[&str] = &["a", "b", "aa", "<init>", "c", "<clinit>", "a$b", "\u{1F600}", "\u{FF21}"];
 
 pub const ORIG_METHODS: &[&str] = &[
     "run", "onCreate", "<init>", "lambda$main$0", "access$100", "get", "set", "<clinit>", "invoke",
@@ -488,6 +490,8 @@ impl<'r> Gen<'r> {
         let orig_class = if self.rng.chance(1, 4) { Some(self.orig_class()).filter(|c| !c.is_empty()) } else { None };
         let orig = if self.cfg.hostile && self.rng.chance(1, 40) { String::new() } else { self.rng.pick(ORIG_METHODS).to_string() };
         let obf = if self.cfg.hostile && self.rng.chance(1, 40) { String::new() } else { self.rng.pick(OBF_METHODS).to_string() };
+        // kept (-keep) members map onto themselves
+        let orig = if self.rng.chance(1, 10) && !obf.is_empty() { obf.clone() } else { orig };
         MethodEntry {
             start,
             end,
@@ -641,7 +645,9 @@ impl<'r> Gen<'r> {
                 self.obf_class()
             };
             used.push(obf.clone());
-            items.push(Item::Class { orig: self.orig_class(), obf });
+            // kept (-keep) classes map onto themselves
+            let orig = if self.rng.chance(1, 10) && !obf.is_empty() { obf.clone() } else { self.orig_class() };
+            items.push(Item::Class { orig, obf });
             let n = match self.rng.below(6) {
                 0 => 0,
                 1 => 1,
